@@ -40,16 +40,23 @@ Definition undecomposed (p : printer) : nat * nat := sum2 (map sunk (p_body p)).
 Theorem undecomposed_bodies :
   map (fun p => (p_type p, p_method p, undecomposed p))
       (filter (fun p => negb (Nat.eqb (fst (undecomposed p)) 0 && Nat.eqb (snd (undecomposed p)) 0)) printers)
-  = [ ("", "asm.irDIEnumerator", (1, 0));                   (* a switch with an init statement *)
-      ("", "constant.NewCharArrayFromString", (0, 1));      (* the conversion []byte(s) *)
-      ("", "constant.NewFloat", (1, 0));                    (* literal codecs: Model/FloatBits.v, FloatX87.v, FloatPPC.v *)
-      ("", "constant.NewFloatFromString", (13, 6));            (* +3 with the KF-40 repair: big.Rat calls *)
-      ("", "constant.NewIntFromString", (2, 0));            (* Model/IntLit.v *)
+  = [ ("", "asm.irDIEnumerator", (1, 0));                 (* a switch with an init statement *)
+      ("", "constant.NewCharArrayFromString", (0, 1));    (* the conversion []byte(s) *)
+      ("", "constant.NewFloat", (1, 0));                  (* literal codecs: Model/FloatBits.v, FloatX87.v, FloatPPC.v *)
+      ("", "constant.NewFloatFromString", (3, 6));        (* the NaN sign stores f.X.SetFloat64(-1); big.Rat calls (KF-40 repair) *)
       ("", "dwarfTagString", (0, 1));
       ("constant.Float", "Ident", (4, 3));
       ("constant.Int", "Ident", (2, 1)) ].
 Proof. vm_compute. reflexivity. Qed.
 
-Example table_size : List.length printers = 837.
+Example table_size : List.length printers = 837 /\ List.length asm_rest = 154.
+Proof. vm_compute. split; reflexivity. Qed.
+(* the rest of package asm (asm_rest): four bodies with one construct each that the translator leaves as text *)
+Example undecomposed_rest :
+  map (fun p => (p_method p, undecomposed p))
+      (filter (fun p => negb (Nat.eqb (fst (undecomposed p)) 0 && Nat.eqb (snd (undecomposed p)) 0)) asm_rest)
+  = [ ("asm.addAttrGroupDefsToModule", (0, 1)); ("asm.addMetadataDefsToModule", (0, 1));   (* closures for sort.Slice *)
+      ("asm.giveUnnamedIdentID", (1, 0));                                                  (* *id++ through a pointer *)
+      ("asm.labelIdent", (0, 1)) ].                                                        (* a two-sided slice expression *)
 Proof. vm_compute. reflexivity. Qed.
 Print Assumptions undecomposed_bodies.
